@@ -32,9 +32,9 @@ ASSUMPTIONS = [
     "list sources cannot carry a fault; the baseline then uses the one-shot sync iterator flavour",
 ]
 
-SRC_FL = ["list", "seq", "iter", "agen", "aclass", "aplain", "tuple", "tuplesub", "aeager"]
-FN_FL = ["def", "async", "partial", "obj", "objaw", "falsyobj"]
-ASYNC_SRC = {"agen", "aclass", "aplain", "aeager"}
+SRC_FL = ["list", "seq", "iter", "agen", "aclass", "aplain", "tuple", "tuplesub", "aeager", "reiter", "areiter", "aproxy"]
+FN_FL = ["def", "async", "partial", "obj", "objaw", "falsyobj", "eqobj", "unhashobj", "aeqobj"]
+ASYNC_SRC = {"agen", "aclass", "aplain", "aeager", "areiter", "aproxy"}
 ALL = ITER_TOOLS + AGG_TOOLS
 
 
